@@ -538,9 +538,75 @@ def verify_all(ctx, repo, prop):
     dsl.verify(ctx, repo, R(), prop + ".graph", TR + ".to_dict", h_to_dict, expect_covers=["to_dict"])
     dsl.verify(ctx, repo, R(), prop + ".graph", TR + ".from_dict", h_from_dict, expect_covers=FROM_DICT_COVERS)
     dsl.verify(ctx, repo, R(), prop + ".graph", [TR + ".get_subtree", TR + "._add_node_to_indices"], h_get_subtree, expect_covers=SUBTREE_COVERS)
+    dsl.verify(ctx, repo, R(), prop + ".graph", TR + "._is_data_point_in_tree", h_is_in_tree, expect_covers=["is-in-tree.with-outlier-list", "is-in-tree.no-outlier-list"])
     ctx.trust("rustworkx PyDiGraph by its contract as used by Tree (forest: unique root path, successors / predecessors, distinct node indices, shallow copy(), dfs_search finish order)",
               "rustworkx compose / remove_node_retain_edges / remove_nodes_from / descendants / dfs_search (discover_vertex once per reachable vertex, parents first) by their documented contracts",
               "rustworkx subgraph(preserve_attrs) = induced subgraph sharing payloads (library)")
+
+
+def h_is_in_tree(I, fi):
+    """Tree._is_data_point_in_tree(dp) = number of graph payloads whose data-point index set contains dp.idx, plus one when the tree has an outlier list that holds dp:
+    zero exactly when the point is nowhere in the tree (the precondition add_data_point_to_node asserts, so that no move can duplicate a point)"""
+    P = I.P
+    t, F = tree_obj(I, fi.cls)
+    has_key = P.decide(2) == 1
+    n = alg.sym("n_nodes_all", "Int")
+    P.assume(P.z(n) >= 1)
+    inn = z3.Function("idx_in_node", z3.IntSort(), z3.BoolSort())
+    in_out = z3.Bool("dp_in_outlier_list")
+    asked = []
+
+    class DPs(Model):
+        def __init__(self, k):
+            self.k = k
+
+        def contains(self, I_, x):
+            asked.append(x)
+            return SBool(inn(I_.P.z(self.k)))
+
+    class Pay2(Model):
+        def __init__(self, k):
+            self.k = k
+
+        def a_data_points(self, I_):
+            return DPs(self.k)
+
+    class G2(Model):
+        def m_nodes(self, I_):
+            return SymSeq("graph-nodes", n, lambda k: Pay2(I_.to_num(k)))
+
+    class DP(Model):
+        def a_idx(self, I_):
+            return alg.sym("dp_idx", "Int")
+
+    dp = DP()
+
+    class OutList(Model):
+        def contains(self, I_, x):
+            asked.append(("outliers", x))
+            return SBool(in_out)
+
+    class Data(Model):
+        def contains(self, I_, k):
+            return has_key if I_.equal(k, -1) is True else False
+
+        def getitem(self, I_, k):
+            if I_.equal(k, -1) is not True:
+                raise Unsupported("data list of a clone")
+            return OutList()
+
+    t.fields["_graph"] = G2()
+    t.fields["_data"] = Data()
+    out = I.to_num(I.call_function(fi, [t, dp], {}, force_inline=True))
+    dsl.cover(I, "is-in-tree.with-outlier-list" if has_key else "is-in-tree.no-outlier-list")
+    b = alg.fresh_bound()
+    count = alg.bigsum("", n, I.to_num(SBool(inn(P.z(b)))), bound=b)
+    want = count + (I.to_num(SBool(in_out)) if has_key else 0)
+    P.check("present.counts-every-clone-and-the-outlier-list", bool(alg.is_identically_zero(out - want)) or not P.feasible(P.z(out) != P.z(want)),
+            "the result counts the payloads holding the point's index and, when there is an outlier list, whether it holds the point", kind="post")
+    idx_asked = [a for a in asked if not isinstance(a, tuple)]
+    P.check("present.asks-for-the-points-own-index", len(idx_asked) >= 1 and all(isinstance(a, alg.Num) and (a - alg.sym("dp_idx", "Int")).is_zero() for a in idx_asked)
+            and all(a[1] is dp for a in asked if isinstance(a, tuple)), "membership is asked for this data point (its idx in the clones, the point itself in the outlier list)", kind="post")
 
 
 def verify_readers_for(ctx, repo, prop, keep):
